@@ -2321,6 +2321,90 @@ theorem reshard_race_served_by_current_pool (size : PoolSize) (evts : List PoolE
     ConnectionOk p stale :=
   connectionOk_of_poolOk p ((pool_filing_invariant size evts rf h).shared p hp) stale
 
+/-! ## 8. From the prepared statement: the Session glue composed with C03 -/
+
+private theorem int64_toInt_range (x : Int64) : -2 ^ 63 ≤ x.toInt ∧ x.toInt < 2 ^ 63 := by
+  have h2 : x.toInt = x.toBitVec.toInt := rfl
+  rw [h2, BitVec.toInt_eq_toNat_cond]
+  have := x.toBitVec.isLt
+  split <;> omega
+
+/-- The token of a serialized key under the statement's partitioner as C03 `token_formula` states it (Murmur3 of the
+key, or the CDC rule); C03 `token_formula_server` equates it with the servers' own functions (`Java.getToken`,
+`cdc_partitioner::get_token`) on their domains. -/
+def serverToken (cdc : Bool) (comps : List (List UInt8)) : Int :=
+  (if cdc then Murmur3.cdcRust (PartitionKey.encodeKey comps) else Murmur3.murmur3Spec (PartitionKey.encodeKey comps)).toInt
+
+/-- **The `RoutingInfo` of `Session::execute`** (C03 `token_formula` inside the glue): for a prepared statement whose
+partition-key markers are `wire` (any order, distinct, all bound: `comps` in partition-key order), the routing info
+carries the servers' token of the serialized key, the statement's table, its LWT flag, the profile's consistency and
+the session's location preference; and the first attempt is the head of the plan for exactly that request. -/
+theorem session_routing_info_spec (p : PreparedM) (values : List PartitionKey.RawValue) (ex : ExecM)
+    (wire : List Nat) (comps : List (List UInt8)) (hpk : p.pk = PartitionKey.pkIndexesOfWire wire)
+    (hne : wire ≠ []) (hnd : wire.Nodup) (hlt : ∀ ix ∈ wire, ix < values.length) (hv : values.length ≤ 65535)
+    (hbound : C03.keyOf wire values = comps.map some) (hsmall : 2 ≤ comps.length → ∀ c ∈ comps, c.length ≤ 65535) :
+    let r : RRequest := ⟨⟨ex.consistency, some (serverToken p.cdc comps), p.table.map (·.1), p.lwt, ex.pref⟩,
+      (p.table.map (·.2)).getD 0⟩
+    sessionRoutingInfo p values ex = .ok r ∧
+    (∀ rc cfg ρp ρf draw, sessionFirstAttempt rc cfg p values ex ρp ρf draw =
+      firstAttempt rc (routePlan rc cfg r ρp ρf) draw) ∧
+    -2 ^ 63 ≤ serverToken p.cdc comps ∧ serverToken p.cdc comps < 2 ^ 63 := by
+  intro r
+  have htok := C03.token_formula p.cdc wire values comps hne hnd hlt hv hbound hsmall
+  have hri : sessionRoutingInfo p values ex = .ok r := by
+    unfold sessionRoutingInfo PartitionKey.boundCalculateToken
+    rw [if_neg (by omega), hpk, htok]
+    simp only [r, serverToken, Option.map_some]
+  refine ⟨hri, ?_, ?_⟩
+  · intro rc cfg ρp ρf draw
+    unfold sessionFirstAttempt
+    rw [hri]
+  · exact int64_toInt_range _
+
+open ScyllaVerif.Props.C05 in
+/-- **End to end, from the bound key** (C03 ∘ glue ∘ C05/C04 ∘ C11 ∘ pool): for a prepared statement on a ring table
+with all key components bound, every cluster, configuration, refiller history and ALL random choices: the first attempt
+of `Session::execute` goes to a live replica of THE SERVERS' TOKEN of the serialized key (preferred-datacenter one when
+one is live), with ScyllaDB's shard of that token on that node, on a connection the server bound to that shard whenever
+the node's pool holds one. (Hypotheses: those of C03 `token_formula` and of `route_first_attempt_owns_token`.) -/
+theorem session_first_attempt_owns_token (rc : RCluster) (cfg : Config) (p : PreparedM)
+    (values : List PartitionKey.RawValue) (ex : ExecM) (ρp : RhoPick) (ρf : RhoFb) (draw : Nat)
+    (wire : List Nat) (comps : List (List UInt8)) (hpk : p.pk = PartitionKey.pkIndexesOfWire wire)
+    (hne : wire ≠ []) (hnd : wire.Nodup) (hlt : ∀ ix ∈ wire, ix < values.length) (hv : values.length ≤ 65535)
+    (hbound : C03.keyOf wire values = comps.map some) (hsmall : 2 ≤ comps.length → ∀ c ∈ comps, c.length ≤ 65535)
+    (r : RRequest)
+    (hr : r = ⟨⟨ex.consistency, some (serverToken p.cdc comps), p.table.map (·.1), p.lwt, ex.pref⟩,
+      (p.table.map (·.2)).getD 0⟩)
+    (hwf : WF (rc.toCluster r.rq.token)) (haware : tokenAware (rc.toCluster r.rq.token) cfg r.rq = true)
+    (hring : tabletsOf rc r = none)
+    (pools : Nat → Refiller)
+    (hreach : ∀ id, ∃ size evts, (∀ c q, PoolEvt.ready c q ∈ evts → NrU16 c) ∧ (Refiller.init size).run evts = some (pools id))
+    (hnode : ∀ id, rc.sharder id = nodeSharder (pools id).shared) :
+    let tok := serverToken p.cdc comps
+    let first := sessionFirstAttempt rc cfg p values ex ρp ρf draw
+    let owned := fun (a : Attempt) =>
+      ∀ s, rc.sharder a.node.id = some s → s.msb.toNat < 64 →
+        a.shard = Sharding.shardOfSpec s.nr s.msb.toNat tok ∧
+        ∃ b, (pools a.node.id).shared = some (.sharded s b) ∧ ∀ ρ : PoolRho,
+          ∃ c, connectionForShard (.sharded s b) a.shard ρ = some c ∧
+            (∀ bucket, b[a.shard]? = some bucket → bucket ≠ [] → shardIdOf c = a.shard)
+    (∀ d, (preference cfg r.rq).datacenter = some d → liveReplicaTargets rc cfg r (.dc d) ≠ [] →
+      ∃ a, first = some a ∧ (a.node, some a.shard) ∈ liveReplicaTargets rc cfg r (.dc d) ∧ owned a) ∧
+    (((preference cfg r.rq).datacenter = none ∨ cfg.failover = true) → liveReplicaTargets rc cfg r .any ≠ [] →
+      ∃ a, first = some a ∧ owned a ∧
+        ((a.node, some a.shard) ∈ liveReplicaTargets rc cfg r .any ∨
+          ∃ d, (preference cfg r.rq).datacenter = some d ∧ (a.node, some a.shard) ∈ liveReplicaTargets rc cfg r (.dc d))) := by
+  intro tok first owned
+  obtain ⟨_, hfirst, h1, h2⟩ := session_routing_info_spec p values ex wire comps hpk hne hnd hlt hv hbound hsmall
+  have htok : r.rq.token = some tok := by rw [hr]
+  have key := route_first_attempt_owns_token rc cfg r ρp ρf draw tok htok h1 h2 hwf haware hring pools hreach hnode
+  have hf : first = firstAttempt rc (routePlan rc cfg r ρp ρf) draw := by
+    show sessionFirstAttempt rc cfg p values ex ρp ρf draw = _
+    rw [hfirst rc cfg ρp ρf draw, hr]
+  simp only [] at key
+  rw [hf]
+  exact key
+
 -- non-vacuity of `route_first_attempt_owns_token`: in `exRC` node 3 has 4 shards (msb 0), the others none. A refiller of
 -- node 3 that saw two connections (shards 2 and 0 of 4) publishes a pool whose sharder is the node's; an untouched
 -- refiller (node 1) publishes nothing - `Node::sharder()` is `None`, as `exRC.sharder 1`.
